@@ -425,7 +425,7 @@ def build_case(r, cid, spec, trans, steps, tier):
         for p in probes:
             ls.append("diff h x: " + " ".join(hx(v) for v in p["x"]))
     meta = {"spec": spec, "trans": trans, "fx": fx, "fn2": fn2, "probes": probes, "extra": extra, "jacs": jacs, "n": n,
-            "vscale_exact": max([1.0] + [abs(v) for v in vals]), "kind": kind}
+            "vscale_exact": max([1.0] + [abs(v) for v in vals]), "kind": kind, "kinks": kinks}
     return ls, meta
 
 
@@ -451,7 +451,7 @@ def judge_case(res, cid, script, meta, steps, stats):
 
     def viol(key, what):
         stats["violations"] += 1
-        res.violation(key, "%s [%s%s]" % (what, script[1], (" ; " + script[2]) if trans else ""), dict(replay, detail=what))
+        res.violation(key, "%s [%s%s]" % (what, script[1], (" ; " + script[2]) if trans else ""), dict(replay, detail=what, case=cid, tier=stats["tier"]))
 
     for st in steps:
         if st.exc is not None:
@@ -501,7 +501,11 @@ def judge_case(res, cid, script, meta, steps, stats):
                         stats["exact_evals"] += 1
                         stats["max"]["exact:" + fam] = max(stats["max"].get("exact:" + fam, 0.0), e)
                         if not e <= TOL_EXACT:
-                            viol("exactness:" + fk, "differentiate of the exactly reproduced %s function is %r, analytic %r (relative %.3g) for output %d, dimension %d at x=%s"
+                            key = "exactness:" + fk
+                            if fam == "wavelet" and spec["order"] == 3 and any(kink_distance(meta["kinks"][q], p["x"][q]) < 1e-13 for q in range(d)):
+                                # input class: a coordinate of x lies exactly on a node of the interpolation table of the cubic wavelets
+                                key = "exactness:wavelet:order3:x-on-interpolation-table-node"
+                            viol(key, "differentiate of the exactly reproduced %s function is %r, analytic %r (relative %.3g) for output %d, dimension %d at x=%s"
                                  % (fx["kind"], dv[k * d + j], g[j], e, k, j, p["y"]))
                             return
     # ---- (ii) finite differences
@@ -603,7 +607,7 @@ def rlq_cases(r, tier):
     return lines
 
 
-def run(res, tier, seed, replay_script=None):
+def run(res, tier, seed, only=None):
     props = vlib.coq_props(PID)
     vlib.proof_coverage(res, PID, props, "cd coq && make Props/Properties_C05.vo && coqc -Q . TV Props/Properties_C05.v", TRUSTED)
     proof_broken = (not props["ok"]) or bool(res.coverage["forbidden_tokens"])
@@ -617,8 +621,8 @@ def run(res, tier, seed, replay_script=None):
     mism, agree = [], 0
 
     # ---- tie: RuleLocal model vs the C++ templates
-    if not replay_script:
-        ucases = rlq_cases(r, tier)
+    ucases = rlq_cases(r, tier)      # always drawn: the case stream below must not depend on the mode
+    if not only:
         ucf = os.path.join(wd, "rlq.txt")
         open(ucf, "w").write("\n".join(ucases) + "\n")
         if udrv is None:
@@ -638,23 +642,24 @@ def run(res, tier, seed, replay_script=None):
                 if rc2 != 0:
                     mism.append("core runner failed on the rlq cases: " + me[-300:])
 
+    vlib.log("[C05] tie done agree=%d mism=%d t=%.1fs" % (agree, len(mism), __import__("time").time() - res.t0))
     # ---- direct evaluation
     ncase = {"quick": 200, "thorough": 2400}[tier] * (3 if proof_broken else 1)
     cases = {}
-    if replay_script:
-        # a replay file holds the complete pass-2 script and its metadata
-        pass
     fams = gl.FAMILIES
     p1 = []
     for i in range(ncase):
         cid = "d%d" % i
         fam = fams[i % len(fams)] if i < 3 * len(fams) else r.choice(["global", "sequence", "localp", "localp", "wavelet", "fourier"])
         spec, trans = gen_case(r, cid, tier, fam)
+        if only and cid != only:
+            continue
         cases[cid] = {"spec": spec, "trans": trans}
         p1 += pass1_lines(cid, spec, trans)
     rc, obs1, so, se = gl.run_scripts(drv, p1, wd, "pass1", timeout=1500, case_timeout=30)
     if rc != 0:
         res.violation("tsgdrv-crash", "tsgdrv exited with %d: %s" % (rc, se[-400:]), {"kind": "impl-counterexample", "script": p1[-20:]})
+    vlib.log("[C05] pass1 done t=%.1fs" % (__import__("time").time() - res.t0))
     p2, metas, scripts = [], {}, {}
     for cid, c in cases.items():
         steps = obs1.get(cid, [])
@@ -671,7 +676,8 @@ def run(res, tier, seed, replay_script=None):
     rc, obs2, so, se = gl.run_scripts(drv, p2, wd, "pass2", timeout=2400, case_timeout=60)
     if rc != 0:
         res.violation("tsgdrv-crash", "tsgdrv exited with %d: %s" % (rc, se[-400:]), {"kind": "impl-counterexample", "script": p2[-20:]})
-    stats = {"violations": 0, "exact_cases": 0, "exact_evals": 0, "exact_not_reproduced": {}, "exact_by_family": {}, "fd_cases": 0, "fd_evals": 0,
+    vlib.log("[C05] pass2 done t=%.1fs" % (__import__("time").time() - res.t0))
+    stats = {"tier": tier, "violations": 0, "exact_cases": 0, "exact_evals": 0, "exact_not_reproduced": {}, "exact_by_family": {}, "fd_cases": 0, "fd_evals": 0,
              "fd_skipped_estimate": 0, "fd_by_family": {}, "chain_cases": 0, "chain_evals": 0, "max": {}}
     dist, nontrivial = {}, 0
     for cid, meta in metas.items():
@@ -730,6 +736,7 @@ def run(res, tier, seed, replay_script=None):
 def replay(path):
     import json
     rp = json.load(open(path))
-    res = vlib.Result(PID, "quick", rp.get("seed", 1), LEVEL)
-    run(res, "quick", rp.get("seed", 1))
+    tier = rp.get("tier", "quick")
+    res = vlib.Result(PID, tier, rp.get("seed", 1), LEVEL)
+    run(res, tier, rp.get("seed", 1), only=rp.get("case"))
     return res.finish()
